@@ -235,6 +235,11 @@ class H2Protocol:
 
     async def handle(self, event: Event) -> None:
         if isinstance(event, RawData):
+            if self.closed:
+                # Read after the server closed the connection (e.g. at
+                # shutdown), requests in it cannot be responded to and
+                # must therefore not be started.
+                return
             try:
                 events = self.connection.receive_data(event.data)
             except h2.exceptions.ProtocolError:
@@ -323,6 +328,10 @@ class H2Protocol:
 
     async def _handle_events(self, events: List[h2.events.Event]) -> None:
         for event in events:
+            if self.closed:
+                # Closed (by the idle timeout, e.g. at shutdown) whilst
+                # handling these events, nothing can be responded to.
+                break
             if isinstance(event, h2.events.RequestReceived):
                 if self.keep_alive_requests > self.config.keep_alive_max_requests:
                     # The client has been told to go away, with the last
